@@ -80,8 +80,10 @@ func getMessageBuffer(c io.Closer) ([]byte, error) {
 
 	// Let's read enough bytes to get the message header (msg type, remaining length)
 	for {
-		// If we have read 5 bytes and still not done, then there's a problem.
-		if l > 5 {
+		// If we have read 5 bytes (packet type and 4 bytes of remaining length) and
+		// are still not done, then there's a problem: a fifth length byte would let
+		// the peer ask for a buffer of up to 32 GiB below.
+		if l > 4 {
 			return nil, fmt.Errorf("connect/getMessage: 4th byte of remaining length has continuation bit set")
 		}
 
